@@ -311,10 +311,22 @@ fn validate_plain<T: Mk>(
 	}
 }
 
-fn apply_op<T: Mk>(ps: &PlainSeg<T>, op: &Value, leaf_d: &dyn Fn(u64) -> u64) -> PlainSeg<T> {
+/// None when the operation does not fit the real segment (its content already differs from the specification's,
+/// which has been recorded as a mismatch of its own).
+fn apply_op<T: Mk>(ps: &PlainSeg<T>, op: &Value, leaf_d: &dyn Fn(u64) -> u64) -> Option<PlainSeg<T>> {
 	let mut s = ps.clone();
 	let k = op["k"].as_u64().unwrap() as usize;
 	let q = op["q"].as_u64().unwrap();
+	let need = match op["kind"].as_str().unwrap() {
+		"leaf_data" | "leaf_pos" | "omit_leaf" => (k, 0, 0),
+		"omit_pair" => (k + 1, 0, 0),
+		"hash" | "drop_hash" => (0, k, 0),
+		"proof" | "drop_proof" => (0, 0, k),
+		_ => (0, 0, 0),
+	};
+	if s.leaf_pos.len() < need.0 || s.hash_pos.len() < need.1 || s.proof.len() < need.2 {
+		return None;
+	}
 	match op["kind"].as_str().unwrap() {
 		"leaf_data" => s.leaf_data[k - 1] = T::mk(leaf_d(s.leaf_pos[k - 1]) + 1000),
 		"leaf_pos" => s.leaf_pos[k - 1] = q,
@@ -339,7 +351,7 @@ fn apply_op<T: Mk>(ps: &PlainSeg<T>, op: &Value, leaf_d: &dyn Fn(u64) -> u64) ->
 		"id_h" => s.h = q as u8,
 		x => panic!("op {}", x),
 	}
-	s
+	Some(s)
 }
 
 fn check_seg<T: Mk, B: Backend<T>>(
@@ -420,10 +432,17 @@ fn check_seg<T: Mk, B: Backend<T>>(
 	}
 	let bm = if prunable { Some(unspent) } else { None };
 	// honest verdict, directly and through the wire format
+	let mut honest_err = String::new();
 	let direct = match catch_unwind(AssertUnwindSafe(|| seg.validate(c.size, bm, c.root))) {
 		Ok(Ok(())) => Verdict::Accept,
-		Ok(Err(_)) => Verdict::Reject,
-		Err(_) => Verdict::Panic,
+		Ok(Err(e)) => {
+			honest_err = err_class(&e).to_string();
+			Verdict::Reject
+		}
+		Err(_) => {
+			honest_err = "panic".into();
+			Verdict::Panic
+		}
 	};
 	let wire = validate_plain(&ps, c.size, bm, c.root, None);
 	let exp = if sg["honest"].as_bool().unwrap() {
@@ -439,6 +458,9 @@ fn check_seg<T: Mk, B: Backend<T>>(
 			json!(format!("{:?}", exp)),
 			json!(format!("{:?}/{:?}", direct, wire)),
 		);
+		if let Some(m) = c.mm.last_mut() {
+			m["err"] = json!(honest_err);
+		}
 	}
 	// validate_with: two accepting and four refusing arrangements (spec: with_ok)
 	if sg["with_ok"].as_bool().unwrap() {
@@ -466,7 +488,10 @@ fn check_seg<T: Mk, B: Backend<T>>(
 	let leaf_d = |p: u64| pmmr::n_leaves(p + 1) - 1;
 	for op in sg["ops"].as_array().unwrap() {
 		c.checks += 1;
-		let cs = apply_op(&ps, op, &leaf_d);
+		let cs = match apply_op(&ps, op, &leaf_d) {
+			Some(x) => x,
+			None => continue,
+		};
 		let v = validate_plain(&cs, c.size, bm, c.root, None);
 		let exp = if op["v"].as_bool().unwrap() {
 			Verdict::Accept
@@ -505,11 +530,23 @@ fn run_case<T: Mk>(case: &Value, dir: &std::path::Path, rng: &mut StdRng) -> Val
 	let unspent: Vec<u64> = (0..nl).filter(|l| !rm.contains(l)).collect();
 	let unspent_bm = bitmap_of(&unspent);
 	let mut plan = vec![];
-	let be: PMMRBackend<T> = build_store(&dir.join("p"), true, nl, extra, &rm, &comp, &late, rng, &mut plan);
-	let be_np: Option<PMMRBackend<T>> = if rm.is_empty() && late.is_empty() {
-		Some(build_store(&dir.join("np"), false, nl, extra, &[], &[], &[], rng, &mut vec![]))
-	} else {
-		None
+	// the store is code under test too: a failing push / prune / sync / check_compact is a recorded mismatch
+	let built = catch_unwind(AssertUnwindSafe(|| {
+		let be: PMMRBackend<T> = build_store(&dir.join("p"), true, nl, extra, &rm, &comp, &late, rng, &mut plan);
+		let be_np: Option<PMMRBackend<T>> = if rm.is_empty() && late.is_empty() {
+			Some(build_store(&dir.join("np"), false, nl, extra, &[], &[], &[], rng, &mut vec![]))
+		} else {
+			None
+		};
+		(be, be_np)
+	}));
+	let (be, be_np) = match built {
+		Ok(x) => x,
+		Err(p) => {
+			let msg = panic_msg(&p);
+			return json!({"nl": nl, "checks": 0, "panics": 1, "plan": plan, "extra": extra,
+				"mismatches": [{"seg": {"h": 0, "idx": 0, "prunable": true}, "what": "store", "step": msg.split(':').next().unwrap_or("?").trim(), "real": msg}]});
+		}
 	};
 	let mut c = Ctx {
 		size,
@@ -535,6 +572,16 @@ fn run_case<T: Mk>(case: &Value, dir: &std::path::Path, rng: &mut StdRng) -> Val
 	json!({"nl": nl, "checks": c.checks, "panics": c.panics, "mismatches": c.mm, "plan": plan, "extra": extra})
 }
 
+pub fn panic_msg(p: &Box<dyn std::any::Any + Send>) -> String {
+	if let Some(s) = p.downcast_ref::<String>() {
+		s.clone()
+	} else if let Some(s) = p.downcast_ref::<&str>() {
+		s.to_string()
+	} else {
+		"panic".to_string()
+	}
+}
+
 pub fn run(args: &Args) -> i32 {
 	let cases = read_ndjson(args.req("cases"));
 	let mut out = NdWriter::create(args.req("out"));
@@ -543,10 +590,18 @@ pub fn run(args: &Args) -> i32 {
 	for (i, case) in cases.iter().enumerate() {
 		let mut rng = StdRng::seed_from_u64(seed.wrapping_mul(1_000_003).wrapping_add(i as u64));
 		let var = rng.gen_range(0, 2) == 1;
-		let mut r = if var {
-			run_case::<VarElem>(case, &dir, &mut rng)
-		} else {
-			run_case::<Elem>(case, &dir, &mut rng)
+		// last resort: whatever escapes the per-call guards is still data about the code under test
+		let guarded = catch_unwind(AssertUnwindSafe(|| {
+			if var {
+				run_case::<VarElem>(case, &dir, &mut rng)
+			} else {
+				run_case::<Elem>(case, &dir, &mut rng)
+			}
+		}));
+		let mut r = match guarded {
+			Ok(r) => r,
+			Err(p) => json!({"nl": case["nl"], "checks": 0, "panics": 1, "plan": [], "extra": 0,
+				"mismatches": [{"seg": {"h": 0, "idx": 0, "prunable": true}, "what": "case_panic", "real": panic_msg(&p)}]}),
 		};
 		r["elem"] = json!(if var { "var" } else { "fixed" });
 		out.put(&r);
